@@ -17,7 +17,7 @@ Proof. reflexivity. Qed.
 Lemma proj_deep_fixed : forall cf o, fix_F5 cf = true -> proj_deep cf o = o_deep o.
 Proof. intros. unfold proj_deep. rewrite H. reflexivity. Qed.
 
-Lemma proj_deep_current : forall o, proj_deep cfg_current o = false.
+Lemma proj_deep_current : forall o, proj_deep cfg_current o = o_deep o.
 Proof. reflexivity. Qed.
 
 (* the tree part of the dry-run clause of the oracle holds for the model once F4 and F16 are repaired *)
@@ -67,3 +67,35 @@ Proof.
     intros sd Hsd. inversion Hsd; subst. split; [left; assumption|apply (wf_obj_inv _ W2)].
   - apply sync_jobs_dry_same_exception; assumption.
 Qed.
+
+(* ------------------------------------------------------------------ /repo as it is (cfg_current) *)
+Lemma dry_run_no_change_current : forall frepr o src dst,
+  NoDup (map fst (p_ws src)) -> (forall kn, In kn (p_ws src) -> job_ok (snd kn)) ->
+  wf (JObj (read_doc FN_PDOC (p_top src))) = true ->
+  fst (sync_projects_m frepr cfg_current false (set_dry o true) src dst) = dst
+  /\ snd (sync_projects_m frepr cfg_current false (set_dry o true) src dst)
+     = snd (sync_projects_m frepr cfg_current false (set_dry o false) src dst).
+Proof. intros frepr. apply (dry_run_no_change_fixed frepr cfg_current); reflexivity. Qed.
+
+Lemma dry_run_no_change_job_current : forall frepr o deep fp sdir ddir dsp, job_ok (Dir sdir) ->
+  fst (sync_jobs_m frepr cfg_current (set_dry o true) deep fp (Some sdir) (Some ddir) dsp) = Some ddir
+  /\ snd (sync_jobs_m frepr cfg_current (set_dry o true) deep fp (Some sdir) (Some ddir) dsp)
+     = snd (sync_jobs_m frepr cfg_current (set_dry o false) deep fp (Some sdir) (Some ddir) dsp).
+Proof. intros frepr. apply (dry_run_no_change_fixed_job frepr cfg_current); reflexivity. Qed.
+
+Lemma dry_run_pooled_current : forall frepr all o src dst,
+  o_dry_run o = true -> docs_wf src -> fst (sync_projects_m frepr cfg_current all o src dst) = dst.
+Proof. intros. apply sync_projects_dry_id; auto. Qed.
+
+(* a dry run into an uninitialised destination job returns, creating nothing *)
+Lemma dry_run_uninitialised_current : forall frepr o deep sdir dsp,
+  sync_jobs_m frepr cfg_current (set_dry o true) deep false (Some sdir) None dsp = (None, None).
+Proof. reflexivity. Qed.
+
+Lemma exclude_never_touched_current : forall frepr p fuel o deep sdir ddir subdir,
+  o_recursive o = false ->
+  wf_node (Dir sdir) = true -> o_dry_run o = false ->
+  p <> [] -> excluded cfg_current o (last p []) = true ->
+  (forall es, lookup_path p (Dir ddir) <> Some (Dir es)) ->
+  lookup_path p (Dir (fst (sync_ws frepr cfg_current fuel o deep sdir ddir subdir))) = lookup_path p (Dir ddir).
+Proof. intros. apply ws_exclude_never_touched; auto. Qed.
